@@ -148,18 +148,22 @@ namespace occa {
     if (offset + bytes <= size) {
       return slice(offset, bytes);
     } else {
-      resize(reserved + alignedBytes);
+      /*
+      No gap fits the request: pack the reservations and put the new one
+      after them, even when the pool already has the required size
+      */
+      resize(reserved + alignedBytes, true);
       return slice(reserved, bytes);
     }
   }
 
-  void modeMemoryPool_t::resize(const udim_t bytes) {
+  void modeMemoryPool_t::resize(const udim_t bytes, const bool pack) {
 
     OCCA_ERROR("Cannot resize memoryPool below current usage"
                "(reserved: " << reserved << ", bytes: " << bytes << ")",
                reserved <= bytes);
 
-    if (size == bytes) return; /*Nothing to do*/
+    if (size == bytes && !pack) return; /*Nothing to do*/
 
     const udim_t alignedBytes = ((bytes + alignment - 1) / alignment) * alignment;
 
